@@ -70,6 +70,13 @@ func c04doc(rng *sx.Rng, big bool) (*docgen, *dv) {
 			}
 		}
 	}
+	// unknown steps written as bare scalars are strings like any other
+	if s := d.get("steps"); s != nil && s.kind == 'l' && rng.Chance(30) {
+		s.l = append(s.l, dStr("frobnicate "+g.mark()))
+		if rng.Chance(50) {
+			s.l = append(s.l, dMap(dkv{"group", dStr("g " + g.mark())}, dkv{"steps", dList(dStr("deploy "+g.mark()))}))
+		}
+	}
 	if big && d.kind == 'm' {
 		// Go-map levels with more than eight entries whose keys change under expansion
 		st := g.commandStep()
